@@ -770,6 +770,12 @@ func VarBuilder(env *Zlisp, name string,
 		return SexpNull, fmt.Errorf("var declaration error: could not make type '%s': %v",
 			rt.SexpString(nil), err)
 	}
+	if val == nil {
+		// a type without a Go sample value (a slice of plain hashes):
+		// there is nothing to make a variable of
+		return SexpNull, fmt.Errorf("var declaration error: type '%s' has no value to declare a variable with",
+			rt.SexpString(nil))
+	}
 	var valSexp Sexp
 	//Q("val is of type %T", val)
 	switch v := val.(type) {
